@@ -476,6 +476,11 @@ impl Property for C01 {
                 Some(v)
             };
             let (Some(fi), Some(fo)) = (frame(&words), frame(&asm)) else { return out(None, h) };
+            // binaries with more than one OpMemoryModel are outside the guarantee (the module has a single slot)
+            if fi.iter().filter(|(a0, _)| (words[*a0] & 0xffff) as u16 == s.op("MemoryModel")).count() > 1 {
+                cov.hit("skipped.outside_guarantee");
+                return out(None, h);
+            }
             let mut used = vec![false; fo.len()];
             for (a0, a1) in &fi {
                 let hit = fo.iter().enumerate().position(|(k, (b0, b1))| !used[k] && b1 - b0 == a1 - a0 && (0..a1 - a0).all(|x| (words[a0 + x] ^ asm[b0 + x]) & mask_in[a0 + x] == 0));
